@@ -83,15 +83,13 @@ def render(cfg: dict, layer: Layer, view: View, parent: dict | None = None) -> I
         img.field("vdi.hdr." + n, "disk.vdi", off, w, "<", k)
         off += w
     # block map
-    m = []
-    for u in range(nblocks):
+    m = [-1] * nblocks
+    for u in set(layer.touch) | set(layer.flags):
         st = layer.ustate(u)
-        if st == "unalloc":
-            m.append(-1)
-        elif st == "zero":
-            m.append(-2)
-        else:
-            m.append(slots[u])
+        if st == "zero":
+            m[u] = -2
+        elif st != "unalloc":
+            m[u] = slots[u]
     f.write(map_off, struct.pack("<%di" % nblocks, *m))
     img.field("vdi.map", "disk.vdi", map_off, 4 * nblocks, "<", "table")
     for i in range(min(nblocks, 4)):
